@@ -54,12 +54,14 @@ Definition Good (ks : list (Z * Z)) (st : state) (tr : list output) (rid : Z) : 
 Definition Hist (seen : list Z) (ks : list (Z * Z)) (st : state) (tr : list output) : Prop :=
   (forall rid, ~ In rid seen -> copies rid tr = []) /\ forall rid, Good ks st tr rid.
 
+(* only the piggy-backed response (type ACK) acknowledges the message ID; a separate CON / NON response does not *)
+Definition ack_keys (r ty mid : Z) (ks : list (Z * Z)) : list (Z * Z) := if ty =? 0 then (r, mid) :: ks else ks.
 Definition ks_after (ks : list (Z * Z)) (e : event) : list (Z * Z) :=
   match e with
   | ERecv r _ mid => (r, mid) :: ks
   | EError r => err_key r :: ks
   | ECancel rid => gone_key rid :: ks
-  | EResponse r ty mid rid => gone_key rid :: (r, mid) :: ks
+  | EResponse r ty mid rid => gone_key rid :: ack_keys r ty mid ks
   | _ => ks
   end.
 
@@ -484,7 +486,8 @@ Definition recv_keys (evs : list event) : list (Z * Z) := ks_all [] evs.
 Lemma ks_after_app : forall ks e, exists l, ks_after ks e = l ++ ks /\ forall ks', ks_after ks' e = l ++ ks'.
 Proof.
   intros ks e. destruct e as [rid r tn|r b mid|t| | |r|rid|r ty mid rid|r on]; cbn;
-    [exists []|exists [(r, mid)]|exists []|exists []|exists []|exists [err_key r]|exists [gone_key rid]|exists [gone_key rid; (r, mid)]|exists []]; split; reflexivity.
+    [exists []|exists [(r, mid)]|exists []|exists []|exists []|exists [err_key r]|exists [gone_key rid]|
+     exists (gone_key rid :: (if ty =? 0 then [(r, mid)] else []))|exists []]; unfold ack_keys; try (destruct (ty =? 0)); split; reflexivity.
 Qed.
 Lemma ks_all_in : forall evs ks k, In k (ks_all ks evs) -> In k ks \/ In k (recv_keys evs).
 Proof.
@@ -635,11 +638,11 @@ Proof.
     + intros r' q' p Hq' Hp. split; [eauto|]. intros Ho. destruct (Z.eq_dec (m_rid (fst p)) rid) as [<-|Hne]; [right; left; reflexivity|left].
       apply filter_In. split; auto. cbn. apply negb_true_iff. apply Z.eqb_neq. exact Hne.
   - destruct (response_shape _ _ _ _ _ _ _ _ S H) as (st1 & o1 & st2 & o2 & o3 & E1 & -> & S1 & Hn1 & S2 & En & Ex & Eb & Hinc & Hkeep & _ & Hcase).
-    assert (H1 : Pend ((r, mid) :: ks) st1).
-    { revert E1. destruct (ty =? 0); intros E1.
+    assert (H1 : Pend (ack_keys r ty mid ks) st1).
+    { unfold ack_keys. revert E1. destruct (ty =? 0); intros E1.
       - apply (pend_recv seen ks st r mid false st1 o1 S (conj P1 P2) E1).
-      - inv E1. apply (pend_mono ks); [split; auto|]. intros x Hx. right. exact Hx. }
-    assert (H2 : Pend (gone_key rid :: (r, mid) :: ks) st2).
+      - inv E1. split; auto. }
+    assert (H2 : Pend (gone_key rid :: ack_keys r ty mid ks) st2).
     { destruct H1 as [Q1 Q2]. split.
       + intros e He. rewrite Ex in He. destruct (Q1 e He) as [Ho|Hg]; [|right; right; exact Hg].
         destruct (Z.eq_dec (e_rid e) rid) as [<-|Hne]; [right; left; reflexivity|left; apply Hkeep; auto].
@@ -679,18 +682,18 @@ Proof.
   - eapply hist_dispatch; eauto. intros x Hx. right. exact Hx.
   - inv H. apply (hist_same_exch seen ks _ st); auto. intros x Hx. right. exact Hx.
   - destruct (response_shape _ _ _ _ _ _ _ _ S H) as (st1 & o1 & st2 & o2 & o3 & E1 & -> & S1 & Hn1 & S2 & En & Ex & Eb & Hinc & Hkeep & Ho2 & Hcase).
-    assert (H1 : Hist seen ((r, mid) :: ks) st1 (tr ++ o1) /\ Pend ((r, mid) :: ks) st1).
-    { revert E1. destruct (ty =? 0); intros E1.
+    assert (H1 : Hist seen (ack_keys r ty mid ks) st1 (tr ++ o1) /\ Pend (ack_keys r ty mid ks) st1).
+    { unfold ack_keys. revert E1. destruct (ty =? 0); intros E1.
       - split; [apply (hist_recv seen ks st tr r mid false st1 o1 S Hh Hp E1)|apply (pend_recv seen ks st r mid false st1 o1 S Hp E1)].
-      - inv E1. rewrite app_nil_r. split; [apply (hist_ks_mono seen ks)|apply (pend_mono ks)]; auto; intros x Hx; right; exact Hx. }
+      - inv E1. rewrite app_nil_r. split; auto. }
     destruct H1 as [H1 P1].
-    assert (H2 : Hist seen (gone_key rid :: (r, mid) :: ks) st2 ((tr ++ o1) ++ o2)).
-    { apply (hist_same_exch seen ((r, mid) :: ks) _ st1); auto; [|intros x Hx; right; exact Hx].
+    assert (H2 : Hist seen (gone_key rid :: ack_keys r ty mid ks) st2 ((tr ++ o1) ++ o2)).
+    { apply (hist_same_exch seen (ack_keys r ty mid ks) _ st1); auto; [|intros x Hx; right; exact Hx].
       destruct Ho2 as [->| ->]; intros t m Hi; cbn in Hi; intuition discriminate. }
     pose proof (pend_forget _ _ _ rid P1 Ex Eb Hkeep) as P2.
     replace (tr ++ o1 ++ o2 ++ o3) with (((tr ++ o1) ++ o2) ++ o3) by (rewrite !app_assoc; reflexivity).
     destruct Hcase as [(-> & Ho3)|(_ & D)].
-    + apply (hist_same_exch seen (gone_key rid :: (r, mid) :: ks) (gone_key rid :: (r, mid) :: ks) st2); auto; [|apply incl_refl].
+    + apply (hist_same_exch seen (gone_key rid :: ack_keys r ty mid ks) (gone_key rid :: ack_keys r ty mid ks) st2); auto; [|apply incl_refl].
       destruct Ho3 as [->|[b ->]]; intros t m Hi; cbn in Hi; intuition discriminate.
     + eapply hist_dispatch; eauto. apply incl_refl.
   - inv H. rewrite app_nil_r. exact Hh.
